@@ -23,7 +23,8 @@ SEQS = [
     ["Sa", "Eb", "Eb'", "Sa'", "Ea"],          # duplicates of both kinds; listed before their first blocks in the last order
 ]
 ORDERS = [("String", "Preamble", "Entry", "ImplicitComment", "ExplicitComment"), ("Entry", "String"), ("Preamble",), (),
-          ("ExplicitComment", "Entry", "ImplicitComment", "String", "Preamble"), ("DuplicateBlockKeyBlock", "Entry", "String")]
+          ("ExplicitComment", "Entry", "ImplicitComment", "String", "Preamble"), ("DuplicateBlockKeyBlock", "Entry", "String"),
+          ("Entry", "String", "Entry"), ("String", "Entry", "Preamble", "String", "Entry", "ImplicitComment")]     # a type named twice ranks by its first position
 
 
 def ref_sort(items, order, preserve):
@@ -61,7 +62,14 @@ def run(P: Program, rep: Report):
     n = 0
     bad = {}
     okcfg = []
-    for si, seq in enumerate(SEQS):
+    seqs = list(SEQS)
+    if rep.tier == "thorough":
+        # every block sequence up to length 3 over eight labels (two same-key entries, a string sharing the key text, a preamble,
+        # both comment kinds, a failed block)
+        labels = ["Eb", "Eb'", "Ea", "Sa", "P", "C1", "C2", "F"]
+        for L_ in (1, 2, 3):
+            seqs.extend(list(t) for t in itertools.product(labels, repeat=L_) if len(set(t)) == len(t))
+    for si, seq in enumerate(seqs):
         for order in ORDERS:
             for preserve in (True, False):
                 def one(ctx):
@@ -151,6 +159,11 @@ def run(P: Program, rep: Report):
             return r.cls_name()
     for ctx, v in explore(two, 5):
         rep.check(v == "ValueError", "C16.R2", "constructor:non-block-type", cls.loc, f"a non-Block type in block_type_order is {v}, expected ValueError")
+
+    rep.rule("C16.R3", "sorting copies every block, failed blocks with their stored exception included: every package exception class is "
+                       "copy-safe (same rule as C01.R6; a stored error that cannot be rebuilt makes the sorted block differ or the sorter raise)")
+    from . import common as _cm
+    _cm.exception_copy_safety(P, rep, "C16.R3")
 
     rep.rule("C16.R9", "no unsafe memoisation in the modules this property rests on: a function decorated with lru_cache / cache / "
                       "cached_property neither takes nor returns a mutable object (else later calls see stale or shared results)")
